@@ -160,8 +160,19 @@ fn prf_fill(tag: u64, index: u32, dest: &mut [u8]) {
 
 /// The single function behind all seams. `can_fail`: whether the caller can
 /// report an error to the library.
+/// First access of this module's thread-local state (see sched::ExitProbe).
+pub fn touch_tls() {
+    let _ = CTX.try_with(|_| ());
+}
+
 fn sim_fill(dest: &mut [u8], source: Source, can_fail: bool) -> Result<(), i32> {
     crate::ffiyield::seam_yield();
+    // a draw made while this thread's state is already gone (a destructor running at thread exit after
+    // ours): a fixed stream rather than a panic inside the library's call
+    if CTX.try_with(|_| ()).is_err() {
+        Rng::new(0x7ea2_d04e ^ dest.len() as u64).fill(dest);
+        return Ok(());
+    }
     CTX.with(|c| {
         let mut c = c.borrow_mut();
         let c = &mut *c;
